@@ -8,12 +8,15 @@ Import ListNotations.
    on every run): does process() reset _index after clear(); does store() guard capacity 0. *)
 Record bt_cfg := { reset_index_in_process : bool; cap0_guard : bool }.
 
-Record bt := { cap : nat; idx : nat; evs : list N }.
+Section Elem.
+Variable A : Type.   (* what is stored: event ids in the unit-level check, whole events in M-BE *)
+
+Record bt := { cap : nat; idx : nat; evs : list A }.
 Definition bt_init : bt := {| cap := 0; idx := 0; evs := [] |}.
 
-Inductive bop := Store (x : N) | Process | SetCap (c : nat).
+Inductive bop := Store (x : A) | Process | SetCap (c : nat).
 
-Fixpoint set_nth (i : nat) (x : N) (l : list N) : list N :=
+Fixpoint set_nth (i : nat) (x : A) (l : list A) : list A :=
   match l, i with
   | [], _ => []
   | _ :: t, 0 => x :: t
@@ -22,12 +25,12 @@ Fixpoint set_nth (i : nat) (x : N) (l : list N) : list N :=
 
 (* an observation: Some id = callback invoked on that stored event; None = the C++ code indexes
    the vector out of bounds (undefined behaviour in the implementation) *)
-Definition obs := option N.
+Definition obs := option A.
 
 Section WithCfg.
 Variable cfg : bt_cfg.
 
-Definition store (x : N) (s : bt) : bt * list obs :=
+Definition store (x : A) (s : bt) : bt * list obs :=
   if cap0_guard cfg && Nat.eqb (cap s) 0 then (s, [])
   else if Nat.ltb (length (evs s)) (cap s)
   then ({| cap := cap s; idx := idx s; evs := evs s ++ [x] |}, [])
@@ -41,7 +44,7 @@ Definition store (x : N) (s : bt) : bt * list obs :=
                else if Nat.ltb (idx s) (cap s - 1) then S (idx s) else 0;
         evs := set_nth (idx s) x (evs s) |}, oob).
 
-Fixpoint proc_loop (n : nat) (index : nat) (l : list N) : list obs :=
+Fixpoint proc_loop (n : nat) (index : nat) (l : list A) : list obs :=
   match n with
   | 0 => []
   | S n' => nth_error l index ::
@@ -72,27 +75,35 @@ End WithCfg.
 
 (* The specification the property states: remember everything stored since the last flush,
    a flush emits the most recent [cap] of them, oldest first, once, and forgets. *)
-Record btspec := { scap : nat; recent : list N }.
+Record btspec := { scap : nat; recent : list A }.
 Definition spec_init : btspec := {| scap := 0; recent := [] |}.
-Definition lastn {A} (n : nat) (l : list A) : list A := skipn (length l - n) l.
+Definition lastn {B} (n : nat) (l : list B) : list B := skipn (length l - n) l.
 
-Definition spec_step (s : btspec) (o : bop) : btspec * list N :=
+Definition spec_step (s : btspec) (o : bop) : btspec * list A :=
   match o with
   | Store x => ({| scap := scap s; recent := recent s ++ [x] |}, [])
   | Process => ({| scap := scap s; recent := [] |}, lastn (scap s) (recent s))
   | SetCap c => if Nat.eqb (scap s) c then (s, []) else ({| scap := c; recent := [] |}, [])
   end.
 
-Fixpoint spec_run (s : btspec) (ops : list bop) : list (list N) :=
+Fixpoint spec_run (s : btspec) (ops : list bop) : list (list A) :=
   match ops with
   | [] => []
   | o :: ops' => let (s', out) := spec_step s o in out :: spec_run s' ops'
   end.
 
+End Elem.
+
+Arguments cap {A}. Arguments idx {A}. Arguments evs {A}. Arguments bt_init {A}.
+Arguments Store {A}. Arguments Process {A}. Arguments SetCap {A}.
+Arguments set_nth {A}. Arguments store {A}. Arguments proc_loop {A}. Arguments process {A}. Arguments set_capacity {A}.
+Arguments bt_step {A}. Arguments bt_run {A}. Arguments scap {A}. Arguments recent {A}. Arguments spec_init {A}.
+Arguments spec_step {A}. Arguments spec_run {A}.
+
 (* Encoded entry point for the extracted model runner: ops as a flat list of N.
    0 x = Store x ; 1 = Process ; 2 c = SetCap c.  Output: per op, the count of observations
    followed by each observation (id+1, or 0 for an out-of-bounds access). *)
-Fixpoint bt_decode (fuel : nat) (l : list N) : list bop :=
+Fixpoint bt_decode (fuel : nat) (l : list N) : list (bop N) :=
   match fuel with
   | 0 => []
   | S f =>
@@ -104,7 +115,7 @@ Fixpoint bt_decode (fuel : nat) (l : list N) : list bop :=
     end
   end.
 
-Definition enc_obs (o : obs) : N := match o with Some x => N.succ x | None => 0%N end.
+Definition enc_obs (o : obs N) : N := match o with Some x => N.succ x | None => 0%N end.
 
 Definition bt_run_enc (reset guard : bool) (l : list N) : list N :=
   let cfg := {| reset_index_in_process := reset; cap0_guard := guard |} in
